@@ -21,6 +21,8 @@ func init() {
 		},
 		Run: runC20,
 		Controls: []Control{
+			{Name: "update-only-offered-to-the-family-it-names", File: "protocols/bgp/server/fsm_established.go", Old: "\tif s.fsm.ipv6Unicast != nil {\n\t\ts.fsm.ipv6Unicast.processUpdate(u, bmpPostPolicy, timestemp)\n\t}\n", New: "\tif s.fsm.ipv6Unicast != nil && u.NLRI == nil {\n\t\ts.fsm.ipv6Unicast.processUpdate(u, bmpPostPolicy, timestemp)\n\t}\n", Expect: "update-offered-to-every-family"},
+			{Name: "withdrawn-routes-cleaned-by-prefix", File: "protocols/bgp/packet/decoder.go", Old: "\tif msg.NLRI != nil && !msg.hasMandatoryAttributes() {", New: "\tif msg.WithdrawnRoutes != nil && msg.NLRI != nil && msg.WithdrawnRoutes.Prefix.Equal(msg.NLRI.Prefix) {\n\t\tmsg.WithdrawnRoutes = msg.WithdrawnRoutes.Next\n\t}\n\tif msg.NLRI != nil && !msg.hasMandatoryAttributes() {", Expect: "decoded-lists-delivered-as-decoded"},
 			{Name: "classic-nlri-copy-the-mp-template", File: "protocols/bgp/server/fsm_address_family.go", Old: "\t\tpath := f.newRoutePath(bmpPostPolicy, timestamp)\n\t\tf.processAttributes(u.PathAttributes, path)\n\t\tpath.BGPPath.PathIdentifier = r.PathIdentifier\n", New: "\t\tpath := f.newRoutePath(bmpPostPolicy, timestamp)\n\t\tf.processAttributes(u.PathAttributes, path)\n\t\tif mp, _ := getMPReachAndUnreachNLRIs(u); mp != nil {\n\t\t\tf.multiProtocolUpdate(path, *mp)\n\t\t\tpath = path.Copy()\n\t\t}\n\t\tpath.BGPPath.PathIdentifier = r.PathIdentifier\n", Expect: "mp-next-hop-stays-in-mp-path"},
 			{Name: "last-nlri-takes-the-message-path", File: "protocols/bgp/server/fsm_address_family.go", Old: "\t\tp := path.Copy()\n\t\tp.BGPPath.PathIdentifier = n.PathIdentifier\n", New: "\t\tp := path\n\t\tif n.Next != nil {\n\t\t\tp = path.Copy()\n\t\t}\n\t\tp.BGPPath.PathIdentifier = n.PathIdentifier\n", Expect: "fresh-path-per-nlri"},
 			{Name: "withdraw-writes-identifier-into-shared-path", File: "protocols/bgp/server/fsm_address_family.go", Old: "\t\tp := path.Copy()\n\t\tp.BGPPath.PathIdentifier = cur.PathIdentifier\n\n\t\tf.adjRIBIn.RemovePath(cur.Prefix, p)", New: "\t\tpath.BGPPath.PathIdentifier = cur.PathIdentifier\n\n\t\tf.adjRIBIn.RemovePath(cur.Prefix, path)", Expect: "fresh-path-per-nlri"},
@@ -36,6 +38,8 @@ func init() {
 
 func runC20(c *core.Ctx) {
 	mpNextHopStaysInMPPath(c)
+	decodedListsDeliveredAsDecoded(c)
+	everyFamilyHandled(c, "update-offered-to-every-family", c.MustFunc(srv+".(*establishedState).update"), c.MustFunc(srv+".(*fsmAddressFamily).processUpdate"))
 	p := c.P
 	pathIDOpaque(c, "path-identifier-is-opaque")
 	attributeWalkComplete(c)
